@@ -326,11 +326,26 @@ func runCase(run *evid.Run, idx int) {
 					model.MTIndex, at, subject, len(subj), idx, i))
 				run.Count("referrers_that_are_childless_indexes", 1)
 			}
-			put(func(reg ociregistry.Interface) {
-				if _, err := reg.PushManifest(bg, name, "", mf, mt); err != nil {
-					panic(fmt.Sprintf("setup: referrer manifest: %v", err))
+			if len(members) > 1 && mt == model.MTImage && (i+idx)%5 == 1 {
+				// the same bytes held by both members of a unifier under different media types (an image
+				// manifest's JSON is also an acceptable index): still one referrer, listed once
+				for mi, reg := range members {
+					mmt := model.MTImage
+					if mi > 0 {
+						mmt = model.MTIndex
+					}
+					if _, err := reg.PushManifest(bg, name, "", mf, mmt); err != nil {
+						panic(fmt.Sprintf("setup: referrer manifest as %s: %v", mmt, err))
+					}
 				}
-			})
+				run.Count("referrers_held_under_two_media_types", 1)
+			} else {
+				put(func(reg ociregistry.Interface) {
+					if _, err := reg.PushManifest(bg, name, "", mf, mt); err != nil {
+						panic(fmt.Sprintf("setup: referrer manifest: %v", err))
+					}
+				})
+			}
 			if c.ArtType != "" && (i+idx)%3 != 0 {
 				otherType[model.Digest(mf)] = true
 				continue
